@@ -254,14 +254,15 @@ func vfC11Find_N(tier int) int {
 	if tier == 0 {
 		return vfNOps + len(vfHand) + 42
 	}
-	return vfNOps + len(vfHand) + 42 + vfNOps*vfNOps + vfNOps*vfNOps*vfNOps/5 + 500
+	return vfNOps + len(vfHand) + 42 + vfNOps*vfNOps + 150
 }
 
 func vfC11Find_Label(c int) string { return vfHistLabel(vfFindIndex(c)) }
 
 // index mapping: 0..14 length-1; 15..44 a slice of the length-2 histories; 45..74 pseudo-random
-// longer histories; beyond (thorough): all length-2 histories, every fifth length-3 history (675) and
-// 500 more random ones. (All 3375 length-3 histories x 4 query harnesses took more than 50 minutes.)
+// longer histories; beyond (thorough): all length-2 histories and 150 more random ones of length 4..7.
+// (With every fifth length-3 history and 500 random ones the four query harnesses did not finish in 55
+// minutes on 16 cores; with all 3375 length-3 histories not in 50 minutes either.)
 func vfFindIndex(c int) int {
 	all := vfNOps + vfNOps*vfNOps + vfNOps*vfNOps*vfNOps
 	if c < vfNOps {
@@ -284,10 +285,6 @@ func vfFindIndex(c int) int {
 		return vfNOps + c
 	}
 	c -= vfNOps * vfNOps
-	if c < vfNOps*vfNOps*vfNOps/5 {
-		return vfNOps + vfNOps*vfNOps + c*5 + c%5
-	}
-	c -= vfNOps * vfNOps * vfNOps / 5
 	return all + 12 + c
 }
 
